@@ -694,7 +694,9 @@ class Engine:
         # a helper that did not exist when the rules were written (not in the frozen inventory) and that is loop-free and small is
         # evaluated in place, whatever the rule's own inlining policy: `extract helper` refactors must not hide code from the rules
         if callee_item.kind in ("Fn", "AssocFn") and callee_item.crate in ("rln", "zerokit_utils") and callee_item.path.split("@")[0] not in known_functions() \
-                and not self.has_loops(callee_item) and self.count_returns(callee_item) <= INLINE_SWITCHES:
+                and self.count_returns(callee_item) <= INLINE_SWITCHES + (4 if self.has_loops(callee_item) else 0):
+            # (a new helper that contains a loop - a function split in two - is evaluated in place as well: its loop is entered once,
+            # like a loop of the caller)
             return True
         if self.inline_policy is not None:
             r = self.inline_policy(callee_item)
@@ -864,6 +866,11 @@ class Engine:
             tys = [x for x in split_substs(rs) if not x.startswith("'")]
             if len(tys) == 2 and tys[0] == tys[1]:
                 return V(raw_args[0])
+        if re.search(r"<impl \[T\]>::split_at$", name) and n == 2:
+            # s.split_at(k) = (&s[..k], &s[k..]); panics when k > len(s)
+            bv, k = V(raw_args[0]), V(raw_args[1])
+            trace.append(("oblig", "SliceIndex", (bv, k, None), site, None, None))
+            return ("tuple", (mk_slice(bv, mk_const("usize", 0), k), mk_slice(bv, k, None)))
         if name.endswith("as std::ops::Try>::branch"):
             return ("try", V(raw_args[0]))
         if "as std::ops::FromResidual<" in name and name.endswith("::from_residual"):
